@@ -41,7 +41,13 @@ JOE_RULE = (
     "1, 2, 3, or no OnSession at all) next to subscribers calling Joe.Subscribe, publications through Server.Publish without topics / with the default "
     "topic named / with other topics next to Joe.Publish (each such scenario in a process of its own); writers that forward every call to a real "
     "*sse.Session (a panic there ends the process: observed as a crash); publisher threads that keep ONE topics slice and rewrite it in place "
-    "between calls once the previous delivery round is over; subscribers presenting a Last-Event-ID x every Replay verdict (ok, error, panic). "
+    "between calls once the previous delivery round is over; subscribers presenting a Last-Event-ID x every Replay verdict (ok, error, panic); "
+    "what Subscription.Client holds: the subscriber's own pointer, a value of an uncomparable dynamic type (func type with methods, struct with a "
+    "slice / map field by value), ONE writer object subscribed 2-3 times with different topics (the same pointer / equal struct values; each call "
+    "attributed to the subscription it is for), sprinkled over every class and a directed class with one member failing; publications whose topic "
+    "list names a topic two or three times (adjacent or not) in every class and directed against every kind of replayer with default-topic "
+    "subscribers the message is not for; Shutdown with a context that ends first while the loop stays inside a writer call until that Shutdown "
+    "has returned and other Subscribe / Publish calls are waiting to be taken; a run stops making scenarios after 30 with stranded calls. "
     "Every trace is replayed through "
     "the extracted JoeLts.step (K = the observed trace is not a path of the model) and through the property's monitor (S). "
     "non-trivial = every scenario (each executes the real provider); distinct = distinct (scenario, trace) pairs"
